@@ -592,7 +592,7 @@ def _selector_step(ob, g, timeout_ms, use_cli, zv, t0):
                 for i in left:          # the few hard conjuncts: each on its own, with the full pipeline
                     o2 = copy.copy(ob)
                     o2.goal = sels[i][1]
-                    if discharge(o2, timeout_ms, use_cli, split=0)['verdict'] != 'proved':
+                    if discharge(o2, timeout_ms, use_cli, split=0, prefer_ground=True)['verdict'] != 'proved':
                         ok = False
                         break
             if ok:
@@ -602,7 +602,7 @@ def _selector_step(ob, g, timeout_ms, use_cli, zv, t0):
     return None
 
 
-def discharge(ob, timeout_ms=20000, use_cli=True, split=1):
+def discharge(ob, timeout_ms=20000, use_cli=True, split=1, prefer_ground=False):
     """dict(verdict, backend, time, ...)   verdict: proved | candidate | unknown"""
     t0 = time.time()
     g = z3.simplify(ob.goal)
@@ -643,6 +643,14 @@ def discharge(ob, timeout_ms=20000, use_cli=True, split=1):
     # grounded variant (instances of quantified hypotheses at the goal's skolem constants): only if it adds something
     fg1 = query_formulas(ob, 1, ground=True)
     grounded = len(fg1) != len(fs1)
+    if prefer_ground and grounded:
+        # a quantified conjunct left over by the selector step: the instantiated, normalised query is the one that works
+        try:
+            r, s2 = _check(normalise(fg1), timeout_ms)
+            if r == z3.unsat:
+                return dict(verdict='proved', backend=zv + '+normalised+inst', time=time.time() - t0)
+        except z3.Z3Exception:
+            pass
     # 1. normalised query first: small, lambda-free, pure arithmetic (a weakening: unsat is a proof)
     fsn1 = None
     try:
